@@ -56,6 +56,16 @@ pub struct MemCfg {
     /// C16: weighter, filter, listener, pipe and the value destructor call back into the same cache
     #[serde(default)]
     pub reentrant: bool,
+    /// lookups of resident keys go through `get_or_fetch` (the hit path of the fetch API) instead of `get`
+    #[serde(default)]
+    pub lookup_via_fetch: bool,
+    /// no event listener is installed (the pipe alone observes what leaves)
+    #[serde(default)]
+    pub no_listener: bool,
+    /// a second cache without event listener is driven in lockstep and the hand-offs to the pipe reported are
+    /// ITS hand-offs: what reaches the disk tier must not depend on whether a listener is installed
+    #[serde(default)]
+    pub shadow_no_listener: bool,
 }
 
 impl MemCfg {
@@ -257,6 +267,8 @@ pub struct MemRunner {
     next_ver: u64,
     /// held handles: (version, key at creation, weight at creation, handle)
     pub held: Vec<(u64, u64, usize, H)>,
+    shadow: Option<Box<MemRunner>>,
+    rt: Option<tokio::runtime::Runtime>,
 }
 
 pub fn eviction_config(cfg: &MemCfg) -> Result<EvictionConfig, String> {
@@ -303,6 +315,19 @@ impl MemRunner {
             rec: Arc::new(Recorder::default()),
             next_ver: 1,
             held: vec![],
+            shadow: if cfg.shadow_no_listener {
+                let mut c2 = cfg.clone();
+                c2.shadow_no_listener = false;
+                c2.no_listener = true;
+                Some(Box::new(MemRunner::new(&c2)?))
+            } else {
+                None
+            },
+            rt: if cfg.lookup_via_fetch {
+                Some(tokio::runtime::Builder::new_current_thread().build().map_err(|e| format!("runtime: {e}"))?)
+            } else {
+                None
+            },
         })
     }
 
@@ -312,7 +337,7 @@ impl MemRunner {
 
     fn init(&mut self, cap: usize) -> Result<(), String> {
         let ec = eviction_config(&self.cfg)?;
-        let cache: C = CacheBuilder::new(cap)
+        let builder = CacheBuilder::new(cap)
             .with_shards(self.cfg.shards)
             .with_eviction_config(ec)
             .with_hash_builder(TableHashBuilder {
@@ -329,10 +354,13 @@ impl MemRunner {
                     reenter();
                 }
                 !v.ph
-            })
-            .with_event_listener(Arc::new(Listener(self.rec.clone())))
-            .build()
-            .with_pipe(Arc::new(RecPipe(self.rec.clone())));
+            });
+        let builder = if self.cfg.no_listener {
+            builder
+        } else {
+            builder.with_event_listener(Arc::new(Listener(self.rec.clone())))
+        };
+        let cache: C = builder.build().with_pipe(Arc::new(RecPipe(self.rec.clone())));
         if self.cfg.reentrant {
             // one never-inserted key per shard: key 900 + s hashes to s
             let ghosts: Vec<u64> = (0..self.cfg.shards as u64).map(|s| 900 + s).collect();
@@ -354,6 +382,16 @@ impl MemRunner {
 
     /// Execute one operation and return its result (`res` of the observation).
     pub fn apply(&mut self, op: &J) -> Result<i64, String> {
+        let r = self.apply_main(op)?;
+        if r != -9 {
+            if let Some(sh) = self.shadow.as_mut() {
+                let _ = sh.apply_main(op)?;
+            }
+        }
+        Ok(r)
+    }
+
+    fn apply_main(&mut self, op: &J) -> Result<i64, String> {
         let name = op["name"].as_str().ok_or("op without name")?;
         let k = op.get("k").and_then(|x| x.as_u64()).unwrap_or(0);
         let hold = op.get("hold").and_then(|x| x.as_bool()).unwrap_or(false);
@@ -363,11 +401,15 @@ impl MemRunner {
         }
         if name == "clone" || name == "drop" {
             let r = op["r"].as_u64().ok_or("handle op without r")?;
-            let pos = self
-                .held
-                .iter()
-                .position(|(v, ..)| *v == r)
-                .ok_or_else(|| format!("script uses handle {r} that is not held"))?;
+            // the script refers to a handle the specification says is held; if the implementation did not hand it
+            // out (an earlier lookup missed where the specification expects a hit) this step observes -9: the
+            // divergence itself was already recorded at the lookup (every prefix of a script is a script)
+            let Some(pos) = self.held.iter().position(|(v, ..)| *v == r) else {
+                if let Some(sh) = self.shadow.as_mut() {
+                    let _ = sh.apply(op);
+                }
+                return Ok(-9);
+            };
             if name == "clone" {
                 let (v, kk, w, h) = &self.held[pos];
                 let c = (*v, *kk, *w, h.clone());
@@ -406,6 +448,26 @@ impl MemRunner {
                 let res = encode(h.value(), k);
                 self.hold_or_drop(hold, h);
                 res
+            }
+            "get" if self.cfg.lookup_via_fetch && cache.contains(&k) => {
+                // the hit path of get_or_fetch (the origin is never asked for a resident key; if it is, its
+                // answer is recognisable: version 0)
+                let rt = self.rt.as_ref().ok_or("no runtime")?;
+                let r = rt.block_on(async {
+                    cache
+                        .get_or_fetch(&k, || async move {
+                            Ok::<_, anyhow::Error>(Val { key: k, ver: 0, w: 1, ph: false, probe: false })
+                        })
+                        .await
+                });
+                match r {
+                    Err(_) => -1,
+                    Ok(h) => {
+                        let res = encode(h.value(), k);
+                        self.hold_or_drop(hold, h);
+                        res
+                    }
+                }
             }
             "get" => match cache.get(&k) {
                 None => 0,
@@ -484,6 +546,18 @@ impl MemRunner {
             ),
             None => (0, 0, vec![]),
         };
+        if let Some(sh) = self.shadow.as_mut() {
+            // what a cache WITHOUT listener handed to the pipe for the same operations (same multiset in another
+            // order = the same: the order of a multi-shard resize is canonicalised from the listener events)
+            let so = sh.observe(op, res);
+            let spp: Vec<u64> = so["pp"].as_array().map(|a| a.iter().filter_map(|x| x.as_u64()).collect()).unwrap_or_default();
+            let (mut a, mut b) = (spp.clone(), pp.clone());
+            a.sort();
+            b.sort();
+            if a != b {
+                pp = spp;
+            }
+        }
         let mut hs: BTreeMap<u64, (usize, u8)> = BTreeMap::new();
         for (ver, key, w, h) in self.held.iter() {
             let intact = h.value().ver == *ver && h.key() == key && h.weight() == *w && h.value().key == *key;
